@@ -366,7 +366,7 @@ def aesKeyExpandArmScalars : List String := ["len"]
 /-- `crypto_aesctr_free` in crypto/crypto_aesctr.c, configuration [] -/
 def aesctrFree : List Stmt := [
   .cond "stream == NULL" "<return>",
-  .call "" "insecure_memzero" ["stream", "offsetof(struct crypto_aesctr, pblk)"] none,
+  .call "" "insecure_memzero" ["stream", "sizeof(struct crypto_aesctr)"] none,
   .call "" "free" ["stream"] none]
 
 /-- `crypto_aesctr_free`: one statement list per preprocessor configuration (named by the macros defined in it) -/
